@@ -507,12 +507,86 @@ func genOrSpreadCase(rt *rapid.T) searchCase {
 	return c
 }
 
+// ---- the "big count" class -------------------------------------------------------------------
+//
+// `| count() <op> N` with N around and above 100: one trace with 120–250 matching spans, traces
+// with exactly 99 / 100 / 101 matching spans and a small one. The count is the number of
+// matching spans, whatever the size of the span arrays shown (at most 100 per trace).
+
+func genBigCountCase(rt *rapid.T) searchCase {
+	c := searchCase{}
+	c.From, c.To = genWindow(rt)
+	from := c.From * 1e9
+	sizes := []int{rapid.IntRange(120, 250).Draw(rt, "bigSpans"), 99, 100, 101, rapid.IntRange(1, 5).Draw(rt, "smallSpans")}
+	keep := rapid.IntRange(2, len(sizes)).Draw(rt, "bigTraces")
+	sizes = rapid.Permutation(sizes).Draw(rt, "bigOrder")[:keep]
+	thresholds := []string{"99", "100", "101", "120", "150", "250"}
+	for ti, n := range sizes {
+		thresholds = append(thresholds, fmt.Sprintf("%d", n))
+		tr := refeval.TQTrace{ID: fmt.Sprintf("%016x%012x%04x", uint64(ti+1)*0x9E3779B97F4A7C15, ti+1, 0)}
+		extra := rapid.IntRange(0, 3).Draw(rt, "nonMatching")
+		for si := 0; si < n+extra; si++ {
+			sp := refeval.TQSpan{
+				ID:      fmt.Sprintf("%08x%06x%02x", ti+1, si+1, 0),
+				TS:      from + int64(ti)*1_000_000_000 + int64(si)*1_000_000,
+				Dur:     1_000_000,
+				Name:    "op1",
+				Service: "svcA",
+				Attrs:   []refeval.TQKV{{K: "a", V: "x"}},
+			}
+			if si >= n {
+				sp.Attrs[0].V = "y" // does not match
+			}
+			tr.Spans = append(tr.Spans, sp)
+		}
+		c.DB.Traces = append(c.DB.Traces, tr)
+	}
+	t := refeval.TQTerm{Label: pick(rt, []string{".a", "span.a"}, "bigLabel"), Op: "=", Val: refeval.TQValue{Kind: "str", Str: "x"}}
+	c.Q = refeval.TQScript{Sels: []refeval.TQSelector{{
+		Expr: &refeval.TQExpr{Heads: []refeval.TQHead{{Term: &t}}},
+		Agg:  &refeval.TQAgg{Fn: "count", Cmp: pick(rt, cmpOps, "bigCmp"), Num: pick(rt, thresholds, "bigN")},
+	}}}
+	c.Text = c.Q.String()
+	c.Limit = pick(rt, []int{2, 5, 20}, "limit")
+	c.Complexity = int64(pick(rt, []int{5, 5, 5, 25_000_000}, "complexity"))
+	return c
+}
+
+// ---- the "aggregate over a filtered attribute" class -----------------------------------------
+//
+// `{A || .b <op> n} | fn(.b) cmp m`: the selector has a term on the aggregated attribute inside
+// an `||`; spans match through A while their `b` fails the term. The aggregate runs over
+// the values of ALL matched spans.
+
+func genAggSameAttrCase(rt *rapid.T) searchCase {
+	c := genOrSpreadCase(rt) // database: a in x/y/z/error..., b numeric / non-numeric / missing
+	ta := pick(rt, orTermsA[:4], "aggTermA")
+	tb := pick(rt, orTermsB[:6], "aggTermB")
+	heads := []refeval.TQHead{{Term: &ta}, {Term: &tb}}
+	if chance(rt, 50, "aggSwap") {
+		heads[0], heads[1] = heads[1], heads[0]
+	}
+	c.Q = refeval.TQScript{Sels: []refeval.TQSelector{{
+		Expr: &refeval.TQExpr{Heads: heads, Ops: []string{"||"}},
+		Agg: &refeval.TQAgg{Fn: pick(rt, []string{"avg", "min", "max", "sum"}, "aggFn"), Attr: pick(rt, []string{".b", "span.b", "resource.b"}, "aggAttr"),
+			Cmp: pick(rt, cmpOps, "aggCmp"), Num: pick(rt, []string{"-1", "0", "1", "2", "3.5", "5"}, "aggNum")},
+	}}}
+	c.Text = c.Q.String()
+	c.Limit = pick(rt, []int{2, 3, 20}, "limit")
+	c.Complexity = int64(pick(rt, []int{0, 5, 5, 5, 9_999_999}, "complexity"))
+	return c
+}
+
 func genSearchCase(rt *rapid.T) searchCase {
 	switch n := int(spread(rt, "searchClass") % 100); {
 	case n < 22:
 		return genSpreadCase(rt)
-	case n < 40:
+	case n < 38:
 		return genOrSpreadCase(rt)
+	case n < 46:
+		return genAggSameAttrCase(rt)
+	case n < 50:
+		return genBigCountCase(rt)
 	}
 	c := searchCase{Q: genScript(rt)}
 	c.Text = c.Q.String()
